@@ -92,6 +92,7 @@ func newSimEnv(c *fw.Ctx, spec drive.Spec, isn uint32) (*simEnv, error) {
 		e.peer = p
 		e.w.OnFilter = func(h *simnet.Handle, s packets.PacketFilterSpec) { p.OnFilter(h, s) }
 		e.w.OnReadStart = func(h *simnet.Handle) { p.OnReadStart(e.w, h) }
+		e.w.OnBeforeFilter = func(h *simnet.Handle, s packets.PacketFilterSpec) { p.OnBeforeFilter(e.w, h, s) }
 	}
 	e.w.OnOpen = func(h *simnet.Handle) {
 		e.mu.Lock()
